@@ -5,6 +5,7 @@
 import ChibiVerif.Model.PP
 import ChibiVerif.Spec.PPSpec
 import ChibiVerif.Lemmas.PPLemmas
+import ChibiVerif.Lemmas.C09Skip
 
 namespace ChibiVerif.PP
 open ChibiVerif.Spec.PPSpec
@@ -214,7 +215,7 @@ def badHead (isFn : Bool) (args : List MacroArg) : List Tok → Bool
   | t :: r =>
     (t.text == "," && textIs r.head? "##" && ((findArg args (r.drop 1).head?).filter (·.isVa)).isSome) ||
     (t.text == "__VA_OPT__" && textIs r.head? "(") ||
-    (t.text == "##" && (textIs r.head? "##" || (isFn && textIs r.head? "#")))
+    (t.text == "##" && isFn && textIs r.head? "#")
 
 def anyBad (isFn : Bool) (args : List MacroArg) : List Tok → Bool
   | [] => false
@@ -512,6 +513,14 @@ theorem parse_head_isOp {isFn : Bool} {args : List MacroArg} {n : Nat} {rest : L
     · simp [isOp, textIs, h2]
     · simp [isOp, textIs, h2]
 
+theorem substItems_op_cons {args : List MacroArg} {vaP : Bool} {fa : String → List Tok} {inner : List Tok → Except Err (List Tok)}
+    {p : Bool} {items2 : List Item} {e : List Elem} (h : substItems args vaP fa inner p (.op :: items2) = .ok e) :
+    ∃ e2, e = .op :: e2 ∧ substItems args vaP fa inner true items2 = .ok e2 := by
+  obtain ⟨e1, e2, rfl, hs, he1⟩ := substItems_cons_ok h (by intro c h; cases h)
+  simp only at he1
+  subst he1
+  exact ⟨e2, rfl, hs⟩
+
 /-- the item to the right of a `##`, under the region hypotheses: a parameter (raw argument or placemarker) or a
     plain token -/
 theorem rhs_step {isFn : Bool} {args0 : List MacroArg} {vaP : Bool} {fa : String → List Tok} {inner : List Tok → Except Err (List Tok)}
@@ -521,17 +530,21 @@ theorem rhs_step {isFn : Bool} {args0 : List MacroArg} {vaP : Bool} {fa : String
     (hb2 : anyBad isFn args0 (rhs :: rest3) = false)
     (hparse : parseBody isFn args0 (n + 1) (rhs :: rest3) = .ok items1)
     (hsub : substItems args0 vaP fa inner true items1 = .ok elems1) :
+    (∃ e, elems1 = Elem.op :: e) ∨
     ∃ items3 e3, parseBody isFn args0 n rest3 = .ok items3 ∧ substItems args0 vaP fa inner false items3 = .ok e3 ∧
       ((∃ a2, findArg args0 (some rhs) = some a2 ∧ ∃ W, spell W = spell a2.toks ∧ (W = [] ↔ a2.toks = []) ∧
           elems1 = rawOrPlacemarker W ++ e3)
        ∨ (findArg args0 (some rhs) = none ∧ elems1 = [Elem.tok rhs] ++ e3)) := by
   simp only [badHead, Bool.or_eq_false_iff, hhh, beq_self_eq_true, Bool.true_and, List.head?_cons, textIs] at hb1
-  obtain ⟨_, hx1, hx2⟩ := hb1
+  obtain ⟨_, hx2⟩ := hb1
   rcases parse_step (anyBad_tail hb2).1 hparse with
-    ⟨h1, hfn, p, rest', items', _, _, _, _⟩ | ⟨_, h2, items', _, _⟩ | ⟨_, _, hip, items3, rfl, hp3⟩ | ⟨_, _, hip, items3, rfl, hp3⟩
+    ⟨h1, hfn, p, rest', items', _, _, _, _⟩ | ⟨_, h2, items', rfl, _⟩ | ⟨_, _, hip, items3, rfl, hp3⟩ | ⟨_, _, hip, items3, rfl, hp3⟩
   · simp [h1, hfn] at hx2
-  · simp [h2] at hx1
-  · obtain ⟨e1, e3, rfl, hsub3, he1⟩ := substItems_cons_ok hsub (by intro c h; cases h)
+  · -- `## ##`: the right operand of the first `##` is a `##`; no paste stack accepts that (`pasteAll_op_op`)
+    obtain ⟨e, rfl, _⟩ := substItems_op_cons hsub
+    exact Or.inl ⟨e, rfl⟩
+  · right
+    obtain ⟨e1, e3, rfl, hsub3, he1⟩ := substItems_cons_ok hsub (by intro c h; cases h)
     simp only [Bool.true_or, if_true] at he1
     have hsome : (findArg args0 (some rhs)).isSome = true := by rw [← isParam_iff]; exact hip
     obtain ⟨a2, ha2⟩ := Option.isSome_iff_exists.1 hsome
@@ -542,7 +555,8 @@ theorem rhs_step {isFn : Bool} {args0 : List MacroArg} {vaP : Bool} {fa : String
       exact ⟨_, spell_withSpacingOf _ _, withSpacingOf_nil_iff _ _, by rw [he1]⟩
     · simp only [hn, Bool.false_eq_true, if_false] at he1
       exact ⟨_, rfl, Iff.rfl, by rw [he1]⟩
-  · obtain ⟨e1, e3, rfl, hsub3, he1⟩ := substItems_cons_ok hsub (by intro c h; cases h)
+  · right
+    obtain ⟨e1, e3, rfl, hsub3, he1⟩ := substItems_cons_ok hsub (by intro c h; cases h)
     simp only at he1
     have : findArg args0 (some rhs) = none := by
       have := isParam_iff args0 rhs
@@ -555,6 +569,12 @@ theorem rhs_step {isFn : Bool} {args0 : List MacroArg} {vaP : Bool} {fa : String
 theorem pasteAll_op_last (lx : String → LexOne) (d es : List Elem) : pasteAll lx [.op] d ≠ .ok es := by
   cases d <;> simp [pasteAll]
 
+/-- `## ##`: a `##` is never accepted as the right operand of a `##` (6.10.3.3: the result would not be a token) -/
+theorem pasteAll_op_op (lx : String → LexOne) (e d es : List Elem) : pasteAll lx (.op :: .op :: e) d ≠ .ok es := by
+  cases d with
+  | nil => simp [pasteAll]
+  | cons l d' => cases l <;> simp [pasteAll, combine]
+
 theorem parse_op_cons {isFn : Bool} {args : List MacroArg} {k : Nat} {hh : Tok} {r : List Tok} {items : List Item}
     (hhh : hh.text = "##") (hb : badHead isFn args (hh :: r) = false)
     (h : parseBody isFn args (k + 1) (hh :: r) = .ok items) :
@@ -564,14 +584,6 @@ theorem parse_op_cons {isFn : Bool} {args : List MacroArg} {k : Nat} {hh : Tok} 
   · exact ⟨items2, rfl, hp⟩
   · exact absurd hhh h2
   · exact absurd hhh h2
-
-theorem substItems_op_cons {args : List MacroArg} {vaP : Bool} {fa : String → List Tok} {inner : List Tok → Except Err (List Tok)}
-    {p : Bool} {items2 : List Item} {e : List Elem} (h : substItems args vaP fa inner p (.op :: items2) = .ok e) :
-    ∃ e2, e = .op :: e2 ∧ substItems args vaP fa inner true items2 = .ok e2 := by
-  obtain ⟨e1, e2, rfl, hs, he1⟩ := substItems_cons_ok h (by intro c h; cases h)
-  simp only at he1
-  subst he1
-  exact ⟨e2, rfl, hs⟩
 
 theorem parse_nil {isFn : Bool} {args : List MacroArg} {k : Nat} {items : List Item}
     (h : parseBody isFn args k [] = .ok items) : items = [] := by
@@ -641,6 +653,93 @@ theorem model_gnu_none {args args0 : List MacroArg} (hcore : args.map core = arg
       | true => simp [Option.filter, hva, hv] at hb
   · simp [hc]
 
+theorem emptyParam_core {args args0 : List MacroArg} (h : args.map core = args0.map core) (t : Tok) :
+    emptyParam args t = emptyParam args0 t := by
+  unfold emptyParam
+  cases hf : findArg args (some t) with
+  | none => rw [findArg_none_core h hf]
+  | some a =>
+    obtain ⟨a0, hf0, _, _, ht⟩ := findArg_some_core h hf
+    rw [hf0]; simp only [ht]
+
+/-- `… ##` as the whole rest of a replacement list: the specification rejects it whatever lies to the left -/
+theorem paste_single_op_absurd (lx : String → LexOne) {isFn : Bool} {args0 : List MacroArg} {vaP : Bool} {fa : String → List Tok}
+    {inner : List Tok → Except Err (List Tok)} {k : Nat} {h : Tok} {items3 : List Item} {e3 d es : List Elem}
+    (hh : h.text = "##") (hb : badHead isFn args0 [h] = false)
+    (hp : parseBody isFn args0 (k + 1) [h] = .ok items3) (hs : substItems args0 vaP fa inner false items3 = .ok e3)
+    (hpaste : pasteAll lx e3 d = .ok es) : False := by
+  obtain ⟨items', rfl, hp'⟩ := parse_op_cons hh hb hp
+  obtain ⟨e', rfl, hs'⟩ := substItems_op_cons hs
+  rw [parse_nil hp'] at hs'
+  simp only [substItems, Except.ok.injEq] at hs'
+  subst hs'
+  exact pasteAll_op_last lx _ _ hpaste
+
+/-- **the placemarker loop against 6.10.3.3p3.**  A placemarker is on top of the paste stack and the specification is about
+    to apply `## rhs …`.  Every turn of the loop of `subst` (`rhs` an empty argument, then `##`, then a further operand) is
+    one `placemarker ## placemarker = placemarker` of the specification: afterwards the placemarker is on top again and the
+    specification is about to apply `## rhs' …` for the operand `rhs'` the loop stops at.  The loop stops at an empty
+    argument followed by `##` only when that `##` is the last token of the replacement list. -/
+theorem skip_sim (lx : String → LexOne) {isFn : Bool} {args0 : List MacroArg} {vaP : Bool} {fa : String → List Tok}
+    {inner : List Tok → Except Err (List Tok)} (done es : List Elem) :
+    ∀ (rest3 : List Tok) (rhs hh : Tok) (k : Nat) (items2 : List Item) (e2 : List Elem),
+      hh.text = "##" →
+      badHead isFn args0 (hh :: rhs :: rest3) = false →
+      anyBad isFn args0 (rhs :: rest3) = false →
+      rest3.length < k →
+      parseBody isFn args0 (k + 1) (rhs :: rest3) = .ok items2 →
+      substItems args0 vaP fa inner true items2 = .ok e2 →
+      pasteAll lx (.op :: e2) (.pm :: done) = .ok es →
+      ∃ (hh' : Tok) (j : Nat) (items2' : List Item) (e2' : List Elem),
+        hh'.text = "##" ∧
+        badHead isFn args0 (hh' :: (skipEmptyOperands args0 rhs rest3).1 :: (skipEmptyOperands args0 rhs rest3).2) = false ∧
+        anyBad isFn args0 ((skipEmptyOperands args0 rhs rest3).1 :: (skipEmptyOperands args0 rhs rest3).2) = false ∧
+        (skipEmptyOperands args0 rhs rest3).2.length < j ∧
+        parseBody isFn args0 (j + 1) ((skipEmptyOperands args0 rhs rest3).1 :: (skipEmptyOperands args0 rhs rest3).2) = .ok items2' ∧
+        substItems args0 vaP fa inner true items2' = .ok e2' ∧
+        pasteAll lx (.op :: e2') (.pm :: done) = .ok es ∧
+        (emptyParam args0 (skipEmptyOperands args0 rhs rest3).1 = true →
+          textIs (skipEmptyOperands args0 rhs rest3).2.head? "##" = true → (skipEmptyOperands args0 rhs rest3).2.length = 1) := by
+  intro rest3 rhs
+  fun_induction skipEmptyOperands args0 rhs rest3 with
+  | case1 rhs h q rest hc ih =>
+    intro hh k items2 e2 hhh hb1 hb2 hk hparse hsub hpaste
+    simp only [Bool.and_eq_true, beq_iff_eq] at hc
+    obtain ⟨hemp, hht⟩ := hc
+    rcases rhs_step hhh hb1 hb2 hparse hsub with ⟨e, rfl⟩ | ⟨items3, e3, hp3, hsub3, hcase⟩
+    · exact absurd hpaste (pasteAll_op_op lx _ _ _)
+    obtain ⟨hbh2, hbt2⟩ := anyBad_tail hb2
+    obtain ⟨hbh3, hbt3⟩ := anyBad_tail hbt2
+    obtain ⟨k1, rfl⟩ : ∃ k1, k = k1 + 1 := ⟨k - 1, by simp only [List.length_cons] at hk; omega⟩
+    obtain ⟨k2, rfl⟩ : ∃ k2, k1 = k2 + 1 := ⟨k1 - 1, by simp only [List.length_cons] at hk; omega⟩
+    obtain ⟨items4, rfl, hp4⟩ := parse_op_cons hht hbh3 hp3
+    obtain ⟨e4, rfl, hsub4⟩ := substItems_op_cons hsub3
+    have hpaste' : pasteAll lx (.op :: e4) (.pm :: done) = .ok es := by
+      rcases hcase with ⟨a2, ha2, W, _, hWnil, rfl⟩ | ⟨hnone, _⟩
+      · have ha2e : a2.toks = [] := by simpa [emptyParam, ha2] using hemp
+        have hW : W = [] := hWnil.2 ha2e
+        subst hW
+        rw [pasteAll_pm_raw] at hpaste
+        simpa [rawOrPlacemarker] using hpaste
+      · simp [emptyParam, hnone] at hemp
+    exact ih h k2 items4 e4 hht hbh3 hbt3 (by simp only [List.length_cons] at hk; omega) hp4 hsub4 hpaste'
+  | case2 rhs h q rest hc =>
+    intro hh k items2 e2 hhh hb1 hb2 hk hparse hsub hpaste
+    refine ⟨hh, k, items2, e2, hhh, hb1, hb2, hk, hparse, hsub, hpaste, ?_⟩
+    intro hemp hx
+    exfalso
+    apply hc
+    simp only [List.head?_cons, textIs, beq_iff_eq] at hx
+    simp [hemp, hx]
+  | case3 rhs rest hne =>
+    intro hh k items2 e2 hhh hb1 hb2 hk hparse hsub hpaste
+    refine ⟨hh, k, items2, e2, hhh, hb1, hb2, hk, hparse, hsub, hpaste, ?_⟩
+    intro _ hx
+    match rest, hne, hx with
+    | [], _, hx => simp [textIs] at hx
+    | [_], _, _ => rfl
+    | x :: y :: r, hne, _ => exact absurd rfl (hne x y r)
+
 set_option maxHeartbeats 400000 in
 theorem subst_sim (lx : String → LexOne) (full : List Tok → List Tok) (isObj : Bool) (args0 : List MacroArg) (vaP : Bool)
     (inner : List Tok → Except Err (List Tok)) :
@@ -648,7 +747,7 @@ theorem subst_sim (lx : String → LexOne) (full : List Tok → List Tok) (isObj
       (items : List Item) (elems es : List Elem),
       body.length < fuel → body.length < pf →
       args.map core = args0.map core → CacheOK full args →
-      anyBad (!isObj) args0 body = false → hasPlacemarkerChain args0 body = false →
+      anyBad (!isObj) args0 body = false →
       (PmTop done = true → textIs body.head? "##" = false) →
       spell acc = spell (dropPlacemarkers done) →
       parseBody (!isObj) args0 pf body = .ok items →
@@ -660,7 +759,7 @@ theorem subst_sim (lx : String → LexOne) (full : List Tok → List Tok) (isObj
   induction fuel with
   | zero => intro st args body acc done pf items elems es h; omega
   | succ n ih =>
-    intro st args body acc done pf items elems es hfuel hpf hcore hcache hbad hchain hpm hR hparse hsub hpaste
+    intro st args body acc done pf items elems es hfuel hpf hcore hcache hbad hpm hR hparse hsub hpaste
     cases body with
     | nil =>
       cases pf with
@@ -677,7 +776,6 @@ theorem subst_sim (lx : String → LexOne) (full : List Tok → List Tok) (isObj
     | cons tok rest =>
       obtain ⟨pf', rfl⟩ : ∃ k, pf = k + 1 := ⟨pf - 1, by simp only [List.length_cons] at hpf; omega⟩
       obtain ⟨hbh, hbt⟩ := anyBad_tail hbad
-      have hct := chain_tail hchain
       simp only [List.length_cons] at hfuel hpf
       rcases parse_step hbh hparse with
         ⟨h1, hfn, p, rest', items', rfl, hip, rfl, hp'⟩ | ⟨h1, h2, items', rfl, hp'⟩ |
@@ -697,7 +795,7 @@ theorem subst_sim (lx : String → LexOne) (full : List Tok → List Tok) (isObj
         obtain ⟨out, args', st', hm, hs⟩ := ih st args rest' (stringize tok a.toks :: acc)
           (.tok (stringizeSpec tok (argToks args0 p.text)) :: done) pf' items' e2 es
           (by simp only [List.length_cons] at hfuel; omega) (by simp only [List.length_cons] at hpf; omega)
-          hcore hcache hbt2 (chain_tail hct) (by simp [PmTop])
+          hcore hcache hbt2 (by simp [PmTop])
           (by rw [spell_cons, dropPM_cons_tok, spell_cons, hR, argToks_of_findArg ha0, htoks]
               simp [spell1, hst, hsk]) hp' hsub' hpaste'
         refine ⟨out, args', st', ?_, hs⟩
@@ -767,7 +865,8 @@ theorem subst_sim (lx : String → LexOne) (full : List Tok → List Tok) (isObj
           | cons nxt rest' =>
             obtain ⟨k, rfl⟩ : ∃ k, pf' = k + 1 := ⟨pf' - 1, by simp only [List.length_cons] at hpf; omega⟩
             obtain ⟨hbh2, hbt2⟩ := anyBad_tail hbt
-            obtain ⟨items3, e3, hp3, hsub3, hcase⟩ := rhs_step h2 hbh hbt hp' hsub2
+            rcases rhs_step h2 hbh hbt hp' hsub2 with ⟨e, rfl⟩ | ⟨items3, e3, hp3, hsub3, hcase⟩
+            · exact absurd hpaste (pasteAll_op_op lx _ _ _)
             have hmodel : ∀ (out : List Tok) (args' : List MacroArg) (st' : St),
                 (match findArg args (some nxt) with
                   | some a =>
@@ -798,7 +897,7 @@ theorem subst_sim (lx : String → LexOne) (full : List Tok → List Tok) (isObj
                   simpa [rawOrPlacemarker, pasteAll, combine] using hpaste
                 obtain ⟨out, args', st', hm, hs⟩ := ih st args rest' (cur :: acc') (Elem.tok lt :: done') k items3 e3 es
                   (by simp only [List.length_cons] at hfuel; omega) (by simp only [List.length_cons] at hpf; omega)
-                  hcore hcache hbt2 (chain_tail hct) (by simp [PmTop])
+                  hcore hcache hbt2 (by simp [PmTop])
                   (by rw [spell_cons, dropPM_cons_tok, spell_cons, hlt, hR']) hp3 hsub3 hpaste2
                 exact ⟨out, args', st', hmodel out args' st' (by rw [ha2]; simp only [ha2e]; exact hm), hs⟩
               | cons w0 ws =>
@@ -823,7 +922,7 @@ theorem subst_sim (lx : String → LexOne) (full : List Tok → List Tok) (isObj
                   obtain ⟨out, args', st', hm, hs⟩ := ih st args rest' (ts.reverse ++ p' :: acc')
                     ((ws.map Elem.tok).reverse ++ Elem.tok x :: done') k items3 e3 es
                     (by simp only [List.length_cons] at hfuel; omega) (by simp only [List.length_cons] at hpf; omega)
-                    hcore hcache hbt2 (chain_tail hct)
+                    hcore hcache hbt2
                     (by rw [pmTop_push_tok]; intro h; cases h)
                     (by rw [spell_append, spell_reverse, spell_cons, dropPM_push, dropPM_cons_tok, spell_append,
                           spell_reverse, spell_cons, hsp.2, hp'sp, hR']) hp3 hsub3 hpaste
@@ -839,7 +938,7 @@ theorem subst_sim (lx : String → LexOne) (full : List Tok → List Tok) (isObj
                 obtain ⟨p', hp'ok, hp'sp⟩ := paste_congr2 lx hlt rfl x hcomb
                 obtain ⟨out, args', st', hm, hs⟩ := ih st args rest' (p' :: acc') (Elem.tok x :: done') k items3 e3 es
                   (by simp only [List.length_cons] at hfuel; omega) (by simp only [List.length_cons] at hpf; omega)
-                  hcore hcache hbt2 (chain_tail hct) (by simp [PmTop])
+                  hcore hcache hbt2 (by simp [PmTop])
                   (by rw [spell_cons, dropPM_cons_tok, spell_cons, hp'sp, hR']) hp3 hsub3 hpaste
                 exact ⟨out, args', st', hmodel out args' st' (by rw [hnone']; simp only [hp'ok]; exact hm), hs⟩
       · -- parameter
@@ -887,7 +986,7 @@ theorem subst_sim (lx : String → LexOne) (full : List Tok → List Tok) (isObj
             obtain ⟨out, args', st', hm, hs⟩ := ih st args rest
               ((setHeadFlags a.toks tok.atBol tok.hasSpace).reverse ++ acc)
               (((withSpacingOf tok a0.toks).map Elem.tok).reverse ++ done) pf' items' e2 es
-              (by omega) (by omega) hcore hcache hbt hct (by rw [hpmf]; intro h; cases h)
+              (by omega) (by omega) hcore hcache hbt (by rw [hpmf]; intro h; cases h)
               (by rw [spell_append, spell_reverse, spell_setHeadFlags, dropPM_push, spell_append, spell_reverse,
                     spell_withSpacingOf, hR, htoks]) hp' hsub' hpaste
             refine ⟨out, args', st', ?_, hs⟩
@@ -940,51 +1039,63 @@ theorem subst_sim (lx : String → LexOne) (full : List Tok → List Tok) (isObj
               | cons rhs rest3 =>
                 obtain ⟨k', rfl⟩ : ∃ k', k = k' + 1 := ⟨k - 1, by simp only [List.length_cons] at hpf; omega⟩
                 obtain ⟨hbh2, hbt2⟩ := anyBad_tail hbt
-                obtain ⟨hbh3, hbt3⟩ := anyBad_tail hbt2
-                obtain ⟨items3, e3, hp3, hsub3, hcase⟩ := rhs_step hhh hbh2 hbt2 hp2 hsub2
-                have hmodel : ∀ (acc' : List Tok) (out : List Tok) (args' : List MacroArg) (st' : St),
-                    (match findArg args (some rhs) with
-                      | some a2 => substLoop lx (purePP full) isObj n st args rest3 (a2.toks.reverse ++ acc)
-                      | none => substLoop lx (purePP full) isObj n st args rest3 (rhs :: acc)) = .ok (out, args', st') →
+                -- the `while` loop of the C code: every `q ##` with an empty `q` is one `placemarker ## placemarker`
+                obtain ⟨hh', j, items2', e2'', hhh', hbh', hbt', hj, hp2', hsub2', hpaste1', hstop⟩ :=
+                  skip_sim lx done es rest3 rhs hh2 k' items2 e2' hhh hbh2 hbt2
+                    (by simp only [List.length_cons] at hpf; omega) hp2 hsub2 hpaste1
+                have hskc := skipEmptyOperands_congr (emptyParam_core hcore) rest3 rhs
+                have hskl := skipEmptyOperands_length args0 rest3 rhs
+                generalize skipEmptyOperands args0 rhs rest3 = sk at hbh' hbt' hj hp2' hstop hskc hskl
+                obtain ⟨rhs', rest4⟩ := sk
+                simp only at hbh' hbt' hj hp2' hstop hskl
+                obtain ⟨hbh3, hbt3⟩ := anyBad_tail hbt'
+                rcases rhs_step hhh' hbh' hbt' hp2' hsub2' with ⟨e, rfl⟩ | ⟨items3, e3, hp3, hsub3, hcase⟩
+                · exact absurd hpaste1' (pasteAll_op_op lx _ _ _)
+                have hmodel : ∀ (out : List Tok) (args' : List MacroArg) (st' : St),
+                    (match findArg args (some rhs') with
+                      | some a2 => substLoop lx (purePP full) isObj n st args rest4 (a2.toks.reverse ++ acc)
+                      | none => substLoop lx (purePP full) isObj n st args rest4 (rhs' :: acc)) = .ok (out, args', st') →
                     substLoop lx (purePP full) isObj (n + 1) st args (tok :: hh2 :: rhs :: rest3) acc = .ok (out, args', st') := by
-                  intro _ out args' st' hm
+                  intro out args' st' hm
                   unfold substLoop
                   simp only [hh, Bool.false_eq_true, if_false]
                   rw [hg]
                   simp only [h2', Bool.false_eq_true, if_false, ha, hnx, if_true, List.drop_succ_cons, List.drop_zero]
                   rw [htoks, htk]
+                  simp only [hskc]
                   exact hm
                 rcases hcase with ⟨a2_0, ha2_0, W, hW, hWnil, rfl⟩ | ⟨hnone, rfl⟩
                 · obtain ⟨a2, ha2, _, _, htoks2⟩ := findArg_of_core_symm hcore ha2_0
-                  rw [pasteAll_pm_raw] at hpaste1
-                  obtain ⟨out, args', st', hm, hs⟩ := ih st args rest3 (a2.toks.reverse ++ acc)
-                    ((rawOrPlacemarker W).reverse ++ done) k' items3 e3 es
-                    (by simp only [List.length_cons] at hfuel; omega) (by simp only [List.length_cons] at hpf; omega)
-                    hcore hcache hbt3 (chain_tail (chain_tail hct))
-                    (by
-                      intro hpt
-                      have hWe := pmTop_raw W done hpt
-                      have ha2e : a2_0.toks = [] := hWnil.1 hWe
-                      -- `tok ## rhs ##` with both arguments empty is excluded
-                      cases rest3 with
-                      | nil => simp [textIs]
-                      | cons h3 r4 =>
-                        simp only [hasPlacemarkerChain, Bool.or_eq_false_iff] at hchain
-                        have := hchain.1
-                        simp only [emptyParam, ha0, htk, ha2_0, ha2e, List.isEmpty_nil, hhh, beq_self_eq_true,
-                          Bool.true_and] at this
-                        simpa [textIs] using this)
+                  rw [pasteAll_pm_raw] at hpaste1'
+                  -- a placemarker stays on top only when the loop stopped at an empty argument: then no `##` follows
+                  have hnext : PmTop ((rawOrPlacemarker W).reverse ++ done) = true → textIs rest4.head? "##" = false := by
+                    intro hpt
+                    have hWe := pmTop_raw W done hpt
+                    have ha2e : a2_0.toks = [] := hWnil.1 hWe
+                    have hemp : emptyParam args0 rhs' = true := by simp [emptyParam, ha2_0, ha2e]
+                    cases hx : textIs rest4.head? "##" with
+                    | false => rfl
+                    | true =>
+                      exfalso
+                      have hlen := hstop hemp hx
+                      obtain ⟨h3, rfl⟩ : ∃ h3, rest4 = [h3] := List.length_eq_one_iff.1 hlen
+                      obtain ⟨j', rfl⟩ : ∃ j', j = j' + 1 := ⟨j - 1, by simp only [List.length_cons] at hj; omega⟩
+                      exact paste_single_op_absurd lx (by simpa [textIs] using hx) (anyBad_tail hbt3).1 hp3 hsub3 hpaste1'
+                  obtain ⟨out, args', st', hm, hs⟩ := ih st args rest4 (a2.toks.reverse ++ acc)
+                    ((rawOrPlacemarker W).reverse ++ done) j items3 e3 es
+                    (by simp only [List.length_cons] at hfuel; omega) hj
+                    hcore hcache hbt3 hnext
                     (by rw [spell_append, spell_reverse, dropPM_raw, spell_append, spell_reverse, hW, hR, htoks2])
-                    hp3 hsub3 hpaste1
-                  exact ⟨out, args', st', hmodel acc out args' st' (by rw [ha2]; exact hm), hs⟩
-                · have hnone' : findArg args (some rhs) = none := findArg_none_core hcore.symm hnone
-                  have hpaste2 : pasteAll lx e3 (Elem.tok rhs :: done) = .ok es := by
-                    simpa [pasteAll, combine] using hpaste1
-                  obtain ⟨out, args', st', hm, hs⟩ := ih st args rest3 (rhs :: acc) (Elem.tok rhs :: done) k' items3 e3 es
-                    (by simp only [List.length_cons] at hfuel; omega) (by simp only [List.length_cons] at hpf; omega)
-                    hcore hcache hbt3 (chain_tail (chain_tail hct))
+                    hp3 hsub3 hpaste1'
+                  exact ⟨out, args', st', hmodel out args' st' (by rw [ha2]; exact hm), hs⟩
+                · have hnone' : findArg args (some rhs') = none := findArg_none_core hcore.symm hnone
+                  have hpaste2 : pasteAll lx e3 (Elem.tok rhs' :: done) = .ok es := by
+                    simpa [pasteAll, combine] using hpaste1'
+                  obtain ⟨out, args', st', hm, hs⟩ := ih st args rest4 (rhs' :: acc) (Elem.tok rhs' :: done) j items3 e3 es
+                    (by simp only [List.length_cons] at hfuel; omega) hj
+                    hcore hcache hbt3
                     (by simp [PmTop]) (by rw [spell_cons, dropPM_cons_tok, spell_cons, hR]) hp3 hsub3 hpaste2
-                  exact ⟨out, args', st', hmodel acc out args' st' (by rw [hnone']; exact hm), hs⟩
+                  exact ⟨out, args', st', hmodel out args' st' (by rw [hnone']; exact hm), hs⟩
         · -- plain parameter: the completely macro-replaced argument
           have hnx' : textIs rest.head? "##" = false := by simpa using hnx
           simp only [hnx', Bool.false_eq_true, if_false] at he1
@@ -1001,7 +1112,7 @@ theorem subst_sim (lx : String → LexOne) (full : List Tok → List Tok) (isObj
               ((setHeadFlags (full a.toks) tok.atBol tok.hasSpace).reverse ++ acc)
               (((withSpacingOf tok (full a0.toks)).map Elem.tok).reverse ++ done) pf' items' e2 es
               (by omega) (by omega) (by rw [setExpanded_core]; exact hcore) (cacheOK_setExpanded hcache ha)
-              hbt hct (fun _ => hnx') hR' hp' hsub' hpaste
+              hbt (fun _ => hnx') hR' hp' hsub' hpaste
             refine ⟨out, args', st', ?_, hs⟩
             unfold substLoop
             simp only [hh, Bool.false_eq_true, if_false]
@@ -1011,7 +1122,7 @@ theorem subst_sim (lx : String → LexOne) (full : List Tok → List Tok) (isObj
           · obtain ⟨out, args', st', hm, hs⟩ := ih st args rest
               ((setHeadFlags (full a.toks) tok.atBol tok.hasSpace).reverse ++ acc)
               (((withSpacingOf tok (full a0.toks)).map Elem.tok).reverse ++ done) pf' items' e2 es
-              (by omega) (by omega) hcore hcache hbt hct (fun _ => hnx') hR' hp' hsub' hpaste
+              (by omega) (by omega) hcore hcache hbt (fun _ => hnx') hR' hp' hsub' hpaste
             refine ⟨out, args', st', ?_, hs⟩
             unfold substLoop
             simp only [hh, Bool.false_eq_true, if_false]
@@ -1038,7 +1149,7 @@ theorem subst_sim (lx : String → LexOne) (full : List Tok → List Tok) (isObj
           | true => simp only [Bool.and_eq_true, beq_iff_eq] at hc; exact absurd ⟨hc.1, by simpa using hc.2⟩ h1
         have h2' : (tok.text == "##") = false := by simpa using h2
         obtain ⟨out, args', st', hm, hs⟩ := ih st args rest (tok :: acc) (.tok tok :: done) pf' items' e2 es
-          (by omega) (by omega) hcore hcache hbt hct (by simp [PmTop])
+          (by omega) (by omega) hcore hcache hbt (by simp [PmTop])
           (by rw [spell_cons, dropPM_cons_tok, spell_cons, hR]) hp' hsub' hpaste'
         refine ⟨out, args', st', ?_, hs⟩
         unfold substLoop
@@ -1066,7 +1177,7 @@ instance (body : List Tok) (args : List MacroArg) : Decidable (NoExtension body 
 /-- `subst` (function-like macro, pure pre-expander) produces the spellings of `Spec.subst` whenever the
     specification defines them, inside the region -/
 theorem subst_spec_of_region (lx : String → LexOne) (full : List Tok → List Tok) (body : List Tok) (args : List MacroArg)
-    (s : List Tok) (hpm : NoPlacemarkerChain body args)
+    (s : List Tok)
     (hext : NoExtension body args) (hfresh : FreshArgs args)
     (hspec : ChibiVerif.Spec.PPSpec.subst lx full true body args = .ok s) :
     ∃ m st', subst lx (purePP full) {} body args false = .ok (m, st') ∧ spell m = spell s := by
@@ -1087,7 +1198,7 @@ theorem subst_spec_of_region (lx : String → LexOne) (full : List Tok → List 
           subst hspec
           obtain ⟨out, args', st', hm, hs⟩ := subst_sim lx full false args _ _ (body.length + 1) {} args body [] []
             (body.length + 1) items elems es (by omega) (by omega) rfl
-            (fun a ha => Or.inl (hfresh a ha)) hext hpm (by simp [PmTop]) (by simp [spell, dropPlacemarkers])
+            (fun a ha => Or.inl (hfresh a ha)) hext (by simp [PmTop]) (by simp [spell, dropPlacemarkers])
             hparse hsub hpaste
           refine ⟨out, st', ?_, hs⟩
           simp [subst, hm, Except.map]
